@@ -1,11 +1,17 @@
 import IprProofs.RBOrder
+import IprProofs.RBLinkedRefine
 /-!
 # C08 — the ordered-set utility stays a valid balanced search tree for any insertions
 
 Every theorem below quantifies over **every** finite insertion sequence `ks` (any length, any repetitions) and
-**every** lawful comparator.  The model (`IprModel/RBTree.lean`) is tied to `include/ipr/utility` by the exact-shape
-correspondence run by `check.py C08`.  The one conjunct of the statement not covered here — consistent parent
-links — has no counterpart in a persistent tree and is checked on the real structure at every step of that run.
+**every** lawful comparator.  The zipper model (`IprModel/RBTree.lean`) is tied to `include/ipr/utility` by the
+exact-shape correspondence run by `check.py C08`.
+
+The conjunct "consistent parent links" has no counterpart in a persistent tree.  It is proved in the second half of
+this file (`C08_linked_*`) on the pointer-level model `IprModel/RBLinked.lean` — a store of cells with `left`, `right`
+and `parent` fields updated statement by statement as the C++ does — which is shown to refine the zipper model for
+every insertion sequence (`Linked.Repr`, `IprProofs/RBLinked*.lean`).  That model, too, is run by `check.py C08`
+against the real structure: shape, colours, `count` and every node's parent are compared after every insertion.
 -/
 namespace Ipr.RB
 open Tree
@@ -137,4 +143,144 @@ example : find icmp 11 (build icmp [5, 3, 8, 1, 4, 7, 9, 2, 6, 10, 5, 3]) = none
 /-- The checker is not trivially true: a red root with a red child is rejected. -/
 example : checkRB (Tree.node .black (.node .red (.node .red .nil (1:Int) .nil) 2 .nil) 3 .nil) = false := by decide +kernel
 
+/-! ## The pointer-level model -/
+section Linked
+variable [Inhabited α]
+open Linked
+
+/-- The store of linked cells reached by running `container<T>::insert` for `ks` in order from the empty container;
+    `none` would mean undefined behaviour (null dereference) or an exhausted loop budget somewhere on the way. -/
+def buildL (cmp : α → α → Int) (ks : List α) : Option (Store α) :=
+  ks.foldlM (fun s k => (s.insertOwn cmp k).map (·.1)) {}
+
+/-- The same for the intrusive flavour, every call bringing a freshly constructed node. -/
+def buildLChain (cmp : α → α → Int) (ks : List α) : Option (Store α) :=
+  ks.foldlM (fun s k => (s.insertChain cmp k).map (·.1)) {}
+
+theorem buildL_snoc (cmp : α → α → Int) (ks : List α) (k : α) :
+    buildL cmp (ks ++ [k]) = (buildL cmp ks).bind fun s => (s.insertOwn cmp k).map (·.1) := by
+  simp [buildL, List.foldlM_append]
+
+theorem buildLChain_snoc (cmp : α → α → Int) (ks : List α) (k : α) :
+    buildLChain cmp (ks ++ [k]) = (buildLChain cmp ks).bind fun s => (s.insertChain cmp k).map (·.1) := by
+  simp [buildLChain, List.foldlM_append]
+
+/-- **Refinement, owning flavour.**  For every insertion sequence the pointer-level run is defined (no null
+    dereference, the fuel handed to the three loops suffices) and the store it reaches represents exactly the tree of
+    the zipper model: same keys, colours and shape, every child's `parent` naming its parent, null `parent` at the root,
+    pairwise distinct addresses; `count` agrees with the zipper model's container. -/
+theorem C08_linked_refines (cmp : α → α → Int) (ks : List α) :
+    ∃ s, buildL cmp ks = some s ∧ Repr s (build cmp ks) ∧ s.count = (buildC cmp ks).count := by
+  induction ks using Ipr.List.snocInduction with
+  | nil => exact ⟨{}, rfl, repr_empty, rfl⟩
+  | append_singleton ks k ih =>
+    obtain ⟨s, hs, hr, hc⟩ := ih
+    obtain ⟨s', w, fresh, h1, h2, h3, h4, _⟩ := insertOwn_refines cmp s _ k hr (C08_redblack cmp ks)
+    refine ⟨s', by simp [buildL_snoc, hs, h1], by rw [build_snoc]; exact h2, ?_⟩
+    rw [h4, buildC_snoc, hc]
+    have : buildC cmp ks = ⟨build cmp ks, (buildC cmp ks).count⟩ := by rw [← buildC_tree]
+    rw [← this]
+
+/-- **Refinement, intrusive flavour.** -/
+theorem C08_linked_chain_refines (cmp : α → α → Int) (ks : List α) :
+    ∃ s, buildLChain cmp ks = some s ∧ Repr s (build cmp ks) ∧ s.count = ks.length := by
+  induction ks using Ipr.List.snocInduction with
+  | nil => exact ⟨{}, rfl, repr_empty, rfl⟩
+  | append_singleton ks k ih =>
+    obtain ⟨s, hs, hr, hc⟩ := ih
+    obtain ⟨s', h1, h2, h3, _⟩ := insertChain_refines cmp s _ k hr (C08_redblack cmp ks)
+    exact ⟨s', by simp [buildLChain_snoc, hs, h1], by rw [build_snoc]; exact h2, by simp [h3, hc]⟩
+
+/-- **Shape.**  Reading the store back through `left`/`right` gives the zipper model's tree, in both flavours. -/
+theorem C08_linked_shape (cmp : α → α → Int) (ks : List α) :
+    (∃ s, buildL cmp ks = some s ∧ s.toTree (s.count + 1) s.root = build cmp ks) ∧
+    (∃ s, buildLChain cmp ks = some s ∧ s.toTree (s.count + 1) s.root = build cmp ks) := by
+  obtain ⟨s, h1, h2, _⟩ := C08_linked_refines cmp ks
+  obtain ⟨s', h1', h2', _⟩ := C08_linked_chain_refines cmp ks
+  exact ⟨⟨s, h1, h2.toTree⟩, ⟨s', h1', h2'.toTree⟩⟩
+
+/-- **Consistent parent links after every insertion sequence** (the conjunct the zipper model could not express),
+    stated on the raw cells: there is a duplicate-free list `fp` of as many addresses as the tree has nodes such that the
+    root is in `fp` and has a null `parent`, and for every `a ∈ fp` a non-null `left`/`right` child `c` is again in `fp`
+    and `c`'s `parent` field is `a`; an empty container has a null root. -/
+theorem C08_linked_parent_links (cmp : α → α → Int) (ks : List α) :
+    ∃ s fp, buildL cmp ks = some s ∧ LinksOK s fp ∧ fp.length = size (build cmp ks) := by
+  obtain ⟨s, h1, h2, _⟩ := C08_linked_refines cmp ks
+  obtain ⟨fp, h3, h4⟩ := h2.links
+  exact ⟨s, fp, h1, h3, h4⟩
+
+theorem C08_linked_chain_parent_links (cmp : α → α → Int) (ks : List α) :
+    ∃ s fp, buildLChain cmp ks = some s ∧ LinksOK s fp ∧ fp.length = size (build cmp ks) := by
+  obtain ⟨s, h1, h2, _⟩ := C08_linked_chain_refines cmp ks
+  obtain ⟨fp, h3, h4⟩ := h2.links
+  exact ⟨s, fp, h1, h3, h4⟩
+
+/-- The red-black rules, the search order and the height bound transfer to the linked structure. -/
+theorem C08_linked_invariants {cmp : α → α → Int} (hc : Lawful cmp) (ks : List α) :
+    ∃ s, buildL cmp ks = some s ∧ RBInv (s.toTree (s.count + 1) s.root) ∧
+      Desc cmp (inorder (s.toTree (s.count + 1) s.root)) ∧
+      height (s.toTree (s.count + 1) s.root) ≤ 2 * Nat.log2 (size (s.toTree (s.count + 1) s.root) + 1) ∧
+      s.count = size (s.toTree (s.count + 1) s.root) := by
+  obtain ⟨s, h1, h2, h3⟩ := C08_linked_refines cmp ks
+  refine ⟨s, h1, ?_⟩
+  rw [h2.toTree]
+  exact ⟨C08_redblack cmp ks, C08_ordered hc ks, C08_height cmp ks, by rw [h3, C08_owning_count hc]⟩
+
+/-- `find` on the linked structure: every inserted key is found at a node holding it, a key never inserted is not. -/
+theorem C08_linked_find {cmp : α → α → Int} (hc : Lawful cmp) (ks : List α) (x : α) :
+    ∃ s r, buildL cmp ks = some s ∧ Store.find cmp s x = some r ∧
+      (x ∈ ks → r.map s.key = some x) ∧ (x ∉ ks → r = none) := by
+  obtain ⟨s, h1, h2, _⟩ := C08_linked_refines cmp ks
+  obtain ⟨r, h3, h4⟩ := h2.find cmp x
+  refine ⟨s, r, h1, h3, ?_, ?_⟩
+  · intro hx; rw [h4, C08_find_inserted hc ks x hx]
+  · intro hx
+    rw [C08_find_absent hc ks x hx] at h4
+    cases r <;> simp_all
+
+/-- Owning flavour on the linked structure: an equal key returns the existing node and changes nothing at all … -/
+theorem C08_linked_owning_duplicate {cmp : α → α → Int} (hc : Lawful cmp) (ks : List α) (k : α) (h : k ∈ ks) :
+    ∃ s w, buildL cmp ks = some s ∧ s.insertOwn cmp k = some (s, w, false) ∧ s.key w = k := by
+  obtain ⟨s, h1, h2, h3⟩ := C08_linked_refines cmp ks
+  obtain ⟨s', w, fresh, e1, _, e3, _, _, e6⟩ := insertOwn_refines cmp s _ k h2 (C08_redblack cmp ks)
+  have hdup := C08_owning_duplicate hc ks k h
+  have hb : buildC cmp ks = ⟨build cmp ks, s.count⟩ := by rw [h3, ← buildC_tree]
+  rw [← hb, hdup] at e3
+  subst e3
+  obtain ⟨rfl, hf⟩ := e6 rfl
+  rw [C08_find_inserted hc ks k h] at hf
+  exact ⟨s', w, h1, e1, by simpa using hf.symm⟩
+
+/-- … and an absent key links exactly one new node, which holds the key. -/
+theorem C08_linked_owning_fresh {cmp : α → α → Int} (hc : Lawful cmp) (ks : List α) (k : α) (h : k ∉ ks) :
+    ∃ s s' w, buildL cmp ks = some s ∧ s.insertOwn cmp k = some (s', w, true) ∧ s'.key w = k ∧ s'.count = s.count + 1 := by
+  obtain ⟨s, h1, h2, h3⟩ := C08_linked_refines cmp ks
+  obtain ⟨s', w, fresh, e1, _, e3, e4, e5, _⟩ := insertOwn_refines cmp s _ k h2 (C08_redblack cmp ks)
+  have hfr := C08_owning_fresh hc ks k h
+  have hb : buildC cmp ks = ⟨build cmp ks, s.count⟩ := by rw [h3, ← buildC_tree]
+  rw [← hb] at e3 e4
+  rw [hfr.1] at e3
+  subst e3
+  exact ⟨s, s', w, h1, e1, e5 rfl, by rw [e4, hfr.2, h3]⟩
+
+/-! Non-vacuity of the pointer-level theorems: the same concrete history as above (duplicates, rotations, a recolouring
+    climb) runs to completion on the store, and the cells hold the expected links. -/
+example : (match buildL icmp [5, 3, 8, 1, 4, 7, 9, 2, 6, 10, 5, 3] with
+    | some s => s.root == some 0 && s.count == 10 && s.next == 10 && s.parent 0 == none && s.parent 7 == some 3 &&
+        s.left 3 == some 7 && s.key 7 == 2 &&
+        (s.toTree (s.count + 1) s.root).inorder == (build icmp [5, 3, 8, 1, 4, 7, 9, 2, 6, 10, 5, 3]).inorder &&
+        (s.toTree (s.count + 1) s.root).checkRB
+    | none => false) = true := by decide +kernel
+example : (match buildLChain icmp [5, 3, 8, 5, 1, 4, 3] with
+    | some s => s.root == some 0 && s.count == 7 && s.next == 7 && s.parent 5 == some 1 && s.parent 3 == none
+    | none => false) = true := by decide +kernel
+/-- `LinksOK` is not trivially true: a child whose `parent` field was forgotten is rejected, whatever `fp`. -/
+example : ¬ ∃ fp, LinksOK ({ mem := #[⟨(1 : Int), .black, some 1, none, none⟩, ⟨2, .red, none, none, none⟩],
+                             root := some 0, count := 2, next := 2 } : Store Int) fp := by
+  rintro ⟨fp, h⟩
+  have h0 := (h.root 0 rfl).1
+  have := (h.left 0 h0 1 rfl).2
+  exact absurd this (by decide)
+
+end Linked
 end Ipr.RB
